@@ -25,6 +25,9 @@ void harness(void) {
 #if defined(FWD)
     H3Index p = in_p = mkcell(PRES, "in_p");
     int64_t pos = in_pos = vp_i64("in_pos");
+#ifdef PENTONLY
+    __CPROVER_assume(spec_is_pentagon(p));   // deep pairs: the pentagon parents (12 per resolution) carry the special-case arithmetic
+#endif
     VP_EXCLUDE();
     H3Index c = UINT64_C(0x5a5a5a5a5a5a5a5a);
     H3Error e = H3_EXPORT(childPosToCell)(pos, p, CRES, &c);
@@ -44,6 +47,9 @@ void harness(void) {
     }
 #elif defined(BWD)
     H3Index c = in_c = mkcell(CRES, "in_c");
+#ifdef PENTONLY
+    __CPROVER_assume(spec_is_pentagon(spec_parent(c, PRES)));
+#endif
     VP_EXCLUDE();
     int64_t pos = -1;
     H3Error e = H3_EXPORT(cellToChildPos)(c, PRES, &pos);
